@@ -7,7 +7,10 @@
 //! Per case:  `I <id> f1 e1 v1 f2 e2 v2 ty wrap ndata holes tamper oc`
 //!            `O <id> create ok|err <Kind>|panic`
 //!            `O <id> reopen ok len=.. slots=.. holes=.. regs=<main><pages><holes>` | `reopen err <Kind> regs=...` | `reopen panic regs=...`
-//!            `O <id> probe <slots after pushing 4 more values>`        (only after a successful reopen)
+//!            `O <id> probe <slots after pushing 4 more values> write=ok|err <Kind>`   (only after a successful reopen;
+//!                                                               the pushed values are written; the database is also flushed in the u64 slice)
+//!            `O <id> again ok len=.. slots=.. holes=.. regs=...` | `again err <Kind> regs=...`   step 3: the SAME request
+//!                                                               (e2, v2, f2) once more; must return what was just written
 //!            `V <id> <key> ...`   the property text itself checked on the implementation (undamaged vectors;
 //!                                 damaged regions are model-level cases only, except the unreadable header)
 //!            `M <id> <tag>`       distribution tags
@@ -347,24 +350,46 @@ struct Reopened<T> {
     slots: Vec<Option<T>>,
     holes: Vec<usize>,
     probe: Vec<Option<T>>,
+    wrote: String, // ok | err <Kind> | - (nothing pushed)
+    snap: Option<Vec<Option<Vec<u8>>>>, // the regions right after the import call returned Ok
 }
 
-fn reopen<W: VecOps<T>, T: Elem>(db: &Database, c: &Case) -> Reopened<T> {
+/// Opens the vector through (e2, v2, f2).  `extend`: push the probe values, observe, write them and
+/// flush the database (step 2); otherwise only observe (step 3).
+fn reopen<W: VecOps<T>, T: Elem>(db: &Database, c: &Case, extend: bool) -> Reopened<T> {
+    let none = |kind: String| Reopened { kind, len: 0, slots: vec![], holes: vec![], probe: vec![], wrote: "-".into(), snap: None };
     let r = catch_unwind(AssertUnwindSafe(|| match W::open(db, c.v2, c.e2 == 'f') {
         Ok(mut w) => {
             let len = w.len_();
             let slots = w.slots_();
             let holes = w.holes_();
-            for i in 0..NPROBE {
-                w.push_(T::of(probe_val(i)));
+            let snap = Some(snapshot(db));
+            let mut probe = vec![];
+            let mut wrote = "-".to_string();
+            if extend {
+                for i in 0..NPROBE {
+                    w.push_(T::of(probe_val(i)));
+                }
+                probe = w.slots_();
+                wrote = match w.write_() {
+                    Ok(_) => "ok".into(),
+                    Err(e) => format!("err {}", err_name(&e)),
+                };
             }
-            let probe = w.slots_();
             drop(w);
-            Reopened { kind: "ok".into(), len, slots, holes, probe }
+            // Database::flush is an fdatasync: done for the u64 slice only (all formats x entry points x
+            // {same version, next version}, i.e. every kept and every reset path), to keep the run short;
+            // in-process visibility does not depend on it.
+            if extend && c.ty == "u64" {
+                if let Err(e) = db.flush() {
+                    wrote = format!("flush-err {e:?}").split_whitespace().take(2).collect::<Vec<_>>().join(" ");
+                }
+            }
+            Reopened { kind: "ok".into(), len, slots, holes, probe, wrote, snap }
         }
-        Err(e) => Reopened { kind: format!("err {}", err_name(&e)), len: 0, slots: vec![], holes: vec![], probe: vec![] },
+        Err(e) => none(format!("err {}", err_name(&e))),
     }));
-    r.unwrap_or(Reopened { kind: "panic".into(), len: 0, slots: vec![], holes: vec![], probe: vec![] })
+    r.unwrap_or_else(|_| none("panic".into()))
 }
 
 fn ename(e: char) -> &'static str {
@@ -433,17 +458,42 @@ fn run2<V: VecOps<T>, W: VecOps<T>, T: Elem>(id: &str, c: &Case) {
     }
     tamper(&db, c);
     let before = snapshot(&db);
-    let ro = reopen::<W, T>(&db, c);
-    let after = snapshot(&db);
+    let ro = reopen::<W, T>(&db, c, true);
+    // regions: before the call vs right after it returned (before anything is pushed or written)
+    let after = ro.snap.clone().unwrap_or_else(|| snapshot(&db));
     let rg = regs(&before, &after);
     if ro.kind == "ok" {
         println!("O {id} reopen ok len={} slots={} holes={} regs={}", ro.len, show_slots(&ro.slots), show_idx(&ro.holes), rg);
-        println!("O {id} probe {}", show_slots(&ro.probe));
+        println!("O {id} probe {} write={}", show_slots(&ro.probe), ro.wrote);
     } else {
         println!("O {id} reopen {} regs={}", ro.kind, rg);
     }
     for w in oracle(c, &ro, &rg) {
         println!("V {id} {w}");
+    }
+    // step 3: the same request again, after the pushed values were written and flushed
+    if ro.kind == "ok" && ro.wrote == "ok" {
+        let before3 = snapshot(&db);
+        let again = reopen::<W, T>(&db, c, false);
+        let after3 = again.snap.clone().unwrap_or_else(|| snapshot(&db));
+        let rg3 = regs(&before3, &after3);
+        if again.kind == "ok" {
+            println!("O {id} again ok len={} slots={} holes={} regs={}", again.len, show_slots(&again.slots), show_idx(&again.holes), rg3);
+        } else {
+            println!("O {id} again {} regs={}", again.kind, rg3);
+        }
+        // "Importing a vector whose stored version and format match the request returns its stored
+        // contents": the request is literally the one that opened (or re-created) the vector.
+        let ctx = format!("created={}({},{}) then twice {}({},{}) ty={} wrap={} tamper={} first={} len={} second={} len={} regs={}",
+                          ename(c.e1), c.v1, c.f1, ename(c.e2), c.v2, c.f2, c.ty, c.wrap, c.tamper,
+                          ro.kind, ro.len, again.kind, again.len, rg3);
+        if again.kind != "ok" {
+            println!("V {id} second-reopen-with-same-request-rejected {ctx}");
+        } else if again.slots != ro.probe {
+            println!("V {id} data-discarded-on-second-reopen-with-same-request {ctx}");
+        } else if rg3.chars().any(|x| x != 's' && x != 'a') {
+            println!("V {id} second-reopen-with-same-request-touches-regions {ctx}");
+        }
     }
     let fam = |f| if is_raw(f) { "raw" } else { "comp" };
     println!("M {id} {}:{}->{}:{}:{}", fam(c.f1), ename(c.e1), fam(c.f2), ename(c.e2),
